@@ -43,6 +43,12 @@ type Result struct {
 	Detail  string `json:"detail,omitempty"`
 	BadStep int    `json:"bad_step,omitempty"`
 	Quiet   int    `json:"quiet_points"`
+	Also    []Also `json:"also,omitempty"` // further failed oracles at the same point (each belongs to its own property)
+}
+
+type Also struct {
+	Sig    string `json:"sig"`
+	Detail string `json:"detail"`
 }
 
 var gvr = schema.GroupVersionResource{Group: "", Version: "v1", Resource: "configmaps"}
